@@ -5,8 +5,9 @@ import hubstep
 
 
 def run(tier):
-    c = shipstep.run_step("C01", tier, "H_Step_C01", ("C01.", "inv."),
+    c = shipstep.run_step("C01", tier, "H_Step_C01", ("C01.", "inv.", "C10.cancel-"),
                           {"write_failures_per_step": 1, "pre_buffer_len_max": 1})
     c.assumptions.append("GHOST: `granted` becomes true only when a trust oracle (paired / auto-accept) answers yes, when ApprovePendingHandshake is called, or for role client (the hub dials only registered SKIs: hub part of this check and C10)")
+    c.assumptions.append("the lemma `C10.cancel-does-not-abort-the-waiting-handshake` (a cancel in pending-listen / ready-listen leaves the hello phase aborted) is part of C01's \"after the user cancelled it\" clause and is reported under C01 as well")
     hubstep.run_hub(c, ["H_Hub_Step"], ("C01.",))
     return c.finish()
